@@ -30,62 +30,76 @@ package fox
 //@   requires safety-args: tree != nil && target != nil && c.params != c.tsrParams
 //@   -- every recorded parameter consumes at least one byte of the path, so the 32-bit parameter counter cannot wrap
 //@   requires safety-len: len(path) < 4294967295
+//@   requires safety-live: !released[box(c)]
 //@   requires safety-wf: heapWF()
 //@   modifies C[Params], C[skippedNodes], E[Param], E[skippedNode], released
-//@   assume-at after (*Pool).Get#1 : pool-discipline: dyntypeIs(call_result, *cTx) && ctxOf(call_result) != nil && ctxOf(call_result) != c && ctxOf(call_result).params != nil && ctxOf(call_result).tsrParams != nil && ctxOf(call_result).skipNds != nil && ctxOf(call_result).params != ctxOf(call_result).tsrParams && ctxOf(call_result).params != c.params && ctxOf(call_result).params != c.tsrParams && ctxOf(call_result).tsrParams != c.params && ctxOf(call_result).tsrParams != c.tsrParams && ctxOf(call_result).skipNds != c.skipNds
+//@   assume-at after (*Pool).Get#1 : pool-discipline: dyntypeIs(call_result, *cTx) && ctxOf(call_result) != nil && ctxOf(call_result) != c && ctxOf(call_result).params != nil && ctxOf(call_result).tsrParams != nil && ctxOf(call_result).skipNds != nil && ctxOf(call_result).params != ctxOf(call_result).tsrParams && ctxOf(call_result).params != c.params && ctxOf(call_result).params != c.tsrParams && ctxOf(call_result).tsrParams != c.params && ctxOf(call_result).tsrParams != c.tsrParams && ctxOf(call_result).skipNds != c.skipNds && !released[box(ctxOf(call_result))]
 //@   -- assumed: a walk on another pooled context leaves this context's buffers alone (the pool never hands out a context in use)
-//@   assume-at after lookupByPath#1 : sub-walk-frame: stackOK(c, path) && stackMono(c) && stackTop(c, paramCnt) && paramCnt <= len(*c.params) && paramCnt <= charsMatched
+//@   assume-at after lookupByPath#1 : sub-walk-frame: stackOK(c, path) && stackMono(c) && stackTop(c, paramCnt) && paramCnt <= len(*c.params) && paramCnt <= charsMatched && !released[box(c)]
 //@   ensures tsr-node: result1 ==> result0 != nil
 //@   ensures leaf: result0 != nil ==> result0.route != nil
+//@   ensures live: !released[box(c)]
 //@   loop 1: invariant current != nil && 0 <= charsMatched && charsMatched <= len(path) && (charsMatched < len(path) ==> paramKeyCnt == 0) && paramCnt <= len(*c.params)
 //@   loop 1: invariant at-end: charsMatched == len(path) ==> 0 <= charsMatchedInNodeFound && charsMatchedInNodeFound <= len(current.key)
 //@   loop 1: invariant stack: stackOK(c, path) && stackMono(c) && stackTop(c, paramCnt)
 //@   loop 1: invariant tsr-n: (tsr ==> n != nil) && (n != nil ==> n.route != nil)
 //@   loop 1: invariant no-wrap: paramCnt <= charsMatched
+//@   loop 1: invariant live: !released[box(c)]
 //@   loop 2: invariant current != nil && 0 <= charsMatched && charsMatched <= len(path) && 0 <= i && i == charsMatchedInNodeFound && i <= len(current.key) && paramCnt <= len(*c.params)
 //@   loop 2: invariant pkc: paramKeyCnt == cnt(current.key, charsMatchedInNodeFound) && paramKeyCnt <= len(current.params)
 //@   loop 2: invariant stack: stackOK(c, path) && stackMono(c) && stackTop(c, paramCnt)
 //@   loop 2: invariant tsr-n: (tsr ==> n != nil) && (n != nil ==> n.route != nil)
 //@   loop 2: invariant no-wrap: paramCnt <= charsMatched
+//@   loop 2: invariant live: !released[box(c)]
 //@   loop 3: invariant current != nil && 0 <= startPath && startPath <= charsMatched && charsMatched <= len(path) && inode != nil && subCtx != nil && subCtx != c && subCtx.params != nil && subCtx.tsrParams != nil && subCtx.skipNds != nil && paramCnt <= len(*c.params)
 //@   loop 3: invariant pkc: paramKeyCnt < len(current.params) && 0 <= charsMatchedInNodeFound && charsMatchedInNodeFound <= len(current.key)
+//@   loop 3: invariant live-sub: !released[box(subCtx)]
 //@   loop 3: invariant stack: stackOK(c, path) && stackMono(c) && stackTop(c, paramCnt)
 //@   loop 3: invariant tsr-n: (tsr ==> n != nil) && (n != nil ==> n.route != nil)
 //@   loop 3: invariant no-wrap: paramCnt <= charsMatched
+//@   loop 3: invariant live: !released[box(c)]
 //@   loop 4: invariant current != nil && 0 <= charsMatched && charsMatched < len(path) && 0 <= i#2 && i#2 <= len(current.childKeys) && idx#5 == -1 && paramCnt <= len(*c.params) && 0 <= charsMatchedInNodeFound && charsMatchedInNodeFound <= len(current.key)
 //@   loop 4: invariant stack: stackOK(c, path) && stackMono(c) && stackTop(c, paramCnt)
 //@   loop 4: invariant tsr-n: (tsr ==> n != nil) && (n != nil ==> n.route != nil)
 //@   loop 4: invariant no-wrap: paramCnt <= charsMatched
+//@   loop 4: invariant live: !released[box(c)]
 
 //@ -- ---------------------------------------------------------------- the hostname walk (same discipline, '.'-separated labels, no catch-all)
-//@ pred subCtxOK(subCtx *cTx, c *cTx) = subCtx != nil && subCtx != c && subCtx.params != nil && subCtx.tsrParams != nil && subCtx.skipNds != nil && subCtx.params != subCtx.tsrParams && subCtx.params != c.params && subCtx.params != c.tsrParams && subCtx.tsrParams != c.params && subCtx.tsrParams != c.tsrParams && subCtx.skipNds != c.skipNds
+//@ pred subCtxOK(subCtx *cTx, c *cTx) = !released[box(subCtx)] && subCtx != nil && subCtx != c && subCtx.params != nil && subCtx.tsrParams != nil && subCtx.skipNds != nil && subCtx.params != subCtx.tsrParams && subCtx.params != c.params && subCtx.params != c.tsrParams && subCtx.tsrParams != c.params && subCtx.tsrParams != c.tsrParams && subCtx.skipNds != c.skipNds
 
 //@ func lookupByDomain props C01,C09
 //@   requires c != nil && c.params != nil && c.tsrParams != nil && c.skipNds != nil
 //@   requires safety-args: tree != nil && target != nil && c.params != c.tsrParams && len(host) > 0
 //@   requires safety-len: len(host) < 4294967295 && len(path) < 4294967295
+//@   requires safety-live: !released[box(c)]
 //@   requires safety-wf: heapWF()
 //@   modifies C[Params], C[skippedNodes], E[Param], E[skippedNode], released
 //@   assume-at after (*Pool).Get#1 : pool-discipline: dyntypeIs(call_result, *cTx) && subCtxOK(ctxOf(call_result), c)
 //@   -- assumed: a walk on another pooled context leaves this context's buffers alone (the pool never hands out a context in use)
-//@   assume-at after lookupByPath#1 : sub-walk-frame: stackOK(c, host) && stackMono(c) && hasSkpNds == (len(*c.skipNds) > 0)
+//@   assume-at after lookupByPath#1 : sub-walk-frame: stackOK(c, host) && stackMono(c) && hasSkpNds == (len(*c.skipNds) > 0) && !released[box(c)]
 //@   ensures tsr-node: result1 ==> result0 != nil
 //@   ensures leaf: result0 != nil ==> result0.route != nil
+//@   ensures live: !released[box(c)]
+//@   loop 1: invariant live: !released[box(c)]
 //@   loop 1: invariant 0 <= i && i <= len(target.childKeys) && idx == -1 && len(*c.skipNds) == 0 && charsMatched == 0 && paramCnt == 0 && paramKeyCnt == 0 && !tsr && n == nil
 //@   loop 2: invariant current != nil && 0 <= charsMatched && charsMatched <= len(host) && (charsMatched < len(host) ==> paramKeyCnt == 0) && paramCnt <= len(*c.params) && subCtxOK(subCtx, c)
 //@   loop 2: invariant at-end: charsMatched == len(host) ==> 0 <= charsMatchedInNodeFound && charsMatchedInNodeFound <= len(current.key)
 //@   loop 2: invariant stack: stackOK(c, host) && stackMono(c) && stackTop(c, paramCnt)
 //@   loop 2: invariant tsr-n: (tsr ==> n != nil) && (n != nil ==> n.route != nil)
 //@   loop 2: invariant no-wrap: paramCnt <= charsMatched
+//@   loop 2: invariant live: !released[box(c)]
 //@   loop 3: invariant current != nil && 0 <= charsMatched && charsMatched <= len(host) && 0 <= i#2 && i#2 == charsMatchedInNodeFound && i#2 <= len(current.key) && paramCnt <= len(*c.params) && subCtxOK(subCtx, c)
 //@   loop 3: invariant pkc: paramKeyCnt == cnt(current.key, charsMatchedInNodeFound) && paramKeyCnt <= len(current.params)
 //@   loop 3: invariant stack: stackOK(c, host) && stackMono(c) && stackTop(c, paramCnt)
 //@   loop 3: invariant tsr-n: (tsr ==> n != nil) && (n != nil ==> n.route != nil)
 //@   loop 3: invariant no-wrap: paramCnt <= charsMatched
+//@   loop 3: invariant live: !released[box(c)]
 //@   loop 4: invariant current != nil && 0 <= charsMatched && charsMatched < len(host) && 0 <= i#3 && i#3 <= len(current.childKeys) && idx == -1 && paramCnt <= len(*c.params) && 0 <= charsMatchedInNodeFound && charsMatchedInNodeFound <= len(current.key) && subCtxOK(subCtx, c)
 //@   loop 4: invariant stack: stackOK(c, host) && stackMono(c) && stackTop(c, paramCnt)
 //@   loop 4: invariant tsr-n: (tsr ==> n != nil) && (n != nil ==> n.route != nil)
 //@   loop 4: invariant no-wrap: paramCnt <= charsMatched
+//@   loop 4: invariant live: !released[box(c)]
 //@   loop 5: invariant current != nil && 0 <= i#4 && i#4 <= len(current.childKeys) && idx == -1 && subCtxOK(subCtx, c) && hasSkpNds == (len(*c.skipNds) > 0)
 //@   loop 5: invariant stack: stackOK(c, host) && stackMono(c)
+//@   loop 5: invariant live: !released[box(c)]
 //@   loop 5: invariant tsr-n: (tsr ==> n != nil) && (n != nil ==> n.route != nil)
